@@ -11,7 +11,7 @@ CLAIMED = {
  "C11": ("stream", "4 C11", "a pipelined sender task and a receiver task over a simulated byte stream whose read chunking the simulator chooses (1-byte reads, random cuts, a single cut at a drawn position, everything at once, last chunk together with io.EOF), record sizes empty to > 1 MiB followed by small ones; received sequence must equal the sent sequence, then io.EOF twice; split-byte refusal"),
  "C12": ("stream", "4 C12", "fault injection on the byte stream (truncation at a drawn byte offset, byte flip/insert/delete, adversarial header blocks, random streams) under drawn fragmentation; every Recv is compared with three-valued reference decoders written from the package documentation; a worker process that dies (out of memory) is reported with its seed"),
  "C18": ("http", "4 C18", "1-4 concurrent HTTP caller tasks on one real Bridge (internal Client, Server and channel.Direct all instrumented) with colliding and exotic ids, mixed calls/notifications/single-defect members, non-POST, wrong content type/charset and non-JSON bodies, gated handlers; per-exchange status/body oracle against the request's own members, handler exactly-once count"),
- "C19": ("http", "4 C19", "(a) concurrent GETs on a real Getter with URLs over the property's alphabet, judged against the parser run as a function (status mapping, body always JSON, accepted parameters marshalable and echoed); (b) a real Client over a real jhttp.Channel whose HTTPClient is an in-process round trip to a real Bridge, with Close at a drawn step, injected Do errors and non-200 statuses; equality with direct results, body open/close accounting, goroutine census"),
+ "C19": ("http", "4 C19", "(a) concurrent GETs on a real Getter with URLs over the property's alphabet, judged against the parser run as a function and against an independent reference of the documented typing rules (status mapping, body always JSON, accepted parameters marshalable, correctly typed and echoed); (b) a real Client over a real jhttp.Channel whose HTTPClient is an in-process round trip to a real Bridge, with Close at a drawn step, injected Do errors and non-200 statuses; equality with direct results, body open/close accounting, goroutine census"),
  "C20": ("loop", "4 C20", "real server.Loop over an in-memory Accepter or the real NetAccepter over an in-memory listener; connect / handler release / accepter failure / context cancel events in drawn order, failing Assigners; exactly-once Finish, Finish-after-server-exit, argument and status checks, Loop return order and value, connection closed after Assigner failure, goroutine census"),
  "C06": ("srv", "4 C06", "seeded search with Concurrency 1..4; online running-handler counter invariant at every handler entry and LogRequest, work-conservation oracle at quiescent points, proven cancel-while-waiting sub-scenario"),
  "C08": ("srv", "4 C08", "seeded search over stop causes (Stop, also from handlers and twice; early peer close; Recv failure with/without data, data+EOF; Send failure) placed at every channel-operation index, both Close-unblocks-Recv settings, traffic before and after the stop, then restart on a fresh channel; must/may status oracle, handler/ctx obligations, goroutine census, servers_active delta, restart probe"),
@@ -30,7 +30,7 @@ NA = {
  "C17": "pure function (method name -> handler) of the name and one configuration bit; no schedule, time or fault involved",
 }
 FAM_NOTE = {
- "http": "Trusted: the AST instrumenter, the scheduler, the in-process HTTP round trip (httptest.ResponseRecorder; no sockets, no net/http server or transport code runs), the gated handlers and the oracle. The value-typing table of ParseQuery is a pure function and is not decided here beyond marshalability. Sampling: a clean run is evidence, not proof.",
+ "http": "Trusted: the AST instrumenter, the scheduler, the in-process HTTP round trip (httptest.ResponseRecorder; no sockets, no net/http server or transport code runs), the gated handlers and the oracle. The value-typing reference abstains on numeric spellings the documentation does not settle (exponents, hex, bare fractions). Sampling: a clean run is evidence, not proof.",
  "loop": "Trusted: the AST instrumenter, the scheduler, the in-memory Accepter / net.Listener / net.Conn, the scripted clients (which close their end when the server goes away), the recording services and the oracle. Sampling: a clean run is evidence, not proof.",
  "stream": "Trusted: the simulated byte stream, the reference encoders/decoders (written from the package documentation; they abstain where it is silent), the scheduler. Workers run under ulimit -v 6 GiB so that an absurd allocation kills the worker and is reported. Sampling: a clean run is evidence, not proof.",
  "cli": "Trusted: the AST instrumenter, the token-passing scheduler over testing/synctest, the simulated channel, the scripted peer and the oracle. Assumes the peer closes its end after seeing EOF (as the property does) and data-race freedom of the library. Sampling: a clean run is evidence, not proof.",
